@@ -135,7 +135,7 @@ template <class PT> void run_scene(vf::Ctx& c, const char* tname, const Scene& s
 
 // ---- S: every sequence of find / setPreconditioner+find calls on ONE estimator, each answer vs a fresh estimator ------------
 // op = size {full, half} x form {index-based, aligned} x preconditioning {none, scale 1, 0.05, 40 through setPreconditioner}
-template <class PT> void run_sequences(vf::Ctx& c, const char* tname, const Scene& sc, int depth) {
+template <class PT> void run_sequences(vf::Ctx& c, const char* tname, const Scene& sc, int depth, int firstOp) {
   using S = typename PT::Scalar; constexpr int DIM = PointTraits<PT>::DIM; constexpr int P = DIM == 2 ? 3 : 6;
   using H = Eigen::Matrix<S, DIM + 1, DIM + 1>;
   LD eps = std::numeric_limits<S>::epsilon();
@@ -183,10 +183,10 @@ template <class PT> void run_sequences(vf::Ctx& c, const char* tname, const Scen
     if (usable[op] && (!shape || !((xFresh[op] - want).norm() <= tolOp[op])))
       c.violation("FindRigidTransformationByLeastSquares.find.notLeastSquaresSolution", vf::JO().str("type", tname).str("scene", sc.name).str("explorer", "S").str("op", opname(op)).done(), vf::JO().num("param_err", (xFresh[op] - want).norm()).num("tol", tolOp[op]).done());
   }
-  uint64_t total = 1; for (int i = 0; i < depth; ++i) total *= NOPS;
-  std::vector<int> seq(depth);
+  uint64_t total = 1; for (int i = 1; i < depth; ++i) total *= NOPS;
+  std::vector<int> seq(depth); seq[0] = firstOp;
   for (uint64_t k = 0; k < total; ++k) {
-    uint64_t r = k; for (int i = 0; i < depth; ++i) { seq[i] = r % NOPS; r /= NOPS; }
+    uint64_t r = k; for (int i = 1; i < depth; ++i) { seq[i] = r % NOPS; r /= NOPS; }
     FindRigidTransformationByLeastSquares<PT> est; int modelPre = 0;
     for (int i = 0; i < depth; ++i) {
       int op = seq[i], pre = op >> 2;
@@ -216,14 +216,14 @@ void init() { if (g2.empty()) { g2 = scenes(2); g3 = scenes(3); } }
 
 }  // namespace
 
-uint64_t vf_ncases(const std::string& tier) { init(); return 4 * g2.size() + 4 * g3.size() + 8; }
+uint64_t vf_ncases(const std::string& tier) { init(); return 4 * g2.size() + 4 * g3.size() + 8 * 16; }
 
 void vf_run(uint64_t idx, const std::string& tier, vf::Ctx& c) {
   init();
   uint64_t nl = 4 * g2.size() + 4 * g3.size();
-  if (idx >= nl) { int t = (int)(idx - nl), d = tier == "thorough" ? 4 : 3;
-    switch (t) { case 0: run_sequences<Eigen::Vector2d>(c, kTypes[0], g2[1], d); break; case 1: run_sequences<Eigen::Vector2f>(c, kTypes[1], g2[1], d); break; case 2: run_sequences<HomogeneousCoordinates2d>(c, kTypes[2], g2[1], d); break; case 3: run_sequences<HomogeneousCoordinates2f>(c, kTypes[3], g2[1], d); break;
-      case 4: run_sequences<Eigen::Vector3d>(c, kTypes[4], g3[1], d); break; case 5: run_sequences<Eigen::Vector3f>(c, kTypes[5], g3[1], d); break; case 6: run_sequences<HomogeneousCoordinates3d>(c, kTypes[6], g3[1], d); break; default: run_sequences<HomogeneousCoordinates3f>(c, kTypes[7], g3[1], d); }
+  if (idx >= nl) { int t = (int)(idx - nl) / 16, f = (int)(idx - nl) % 16, d = tier == "thorough" ? 6 : 3;
+    switch (t) { case 0: run_sequences<Eigen::Vector2d>(c, kTypes[0], g2[1], d, f); break; case 1: run_sequences<Eigen::Vector2f>(c, kTypes[1], g2[1], d, f); break; case 2: run_sequences<HomogeneousCoordinates2d>(c, kTypes[2], g2[1], d, f); break; case 3: run_sequences<HomogeneousCoordinates2f>(c, kTypes[3], g2[1], d, f); break;
+      case 4: run_sequences<Eigen::Vector3d>(c, kTypes[4], g3[1], d, f); break; case 5: run_sequences<Eigen::Vector3f>(c, kTypes[5], g3[1], d, f); break; case 6: run_sequences<HomogeneousCoordinates3d>(c, kTypes[6], g3[1], d, f); break; default: run_sequences<HomogeneousCoordinates3f>(c, kTypes[7], g3[1], d, f); }
     return; }
   if (idx < 4 * g2.size()) { int t = idx / g2.size(); const auto& s = g2[idx % g2.size()];
     switch (t) { case 0: run_scene<Eigen::Vector2d>(c, kTypes[0], s, tier == "thorough"); break; case 1: run_scene<Eigen::Vector2f>(c, kTypes[1], s, tier == "thorough"); break; case 2: run_scene<HomogeneousCoordinates2d>(c, kTypes[2], s, tier == "thorough"); break; default: run_scene<HomogeneousCoordinates2f>(c, kTypes[3], s, tier == "thorough"); } }
@@ -231,7 +231,7 @@ void vf_run(uint64_t idx, const std::string& tier, vf::Ctx& c) {
     switch (t) { case 0: run_scene<Eigen::Vector3d>(c, kTypes[4], s, tier == "thorough"); break; case 1: run_scene<Eigen::Vector3f>(c, kTypes[5], s, tier == "thorough"); break; case 2: run_scene<HomogeneousCoordinates3d>(c, kTypes[6], s, tier == "thorough"); break; default: run_scene<HomogeneousCoordinates3f>(c, kTypes[7], s, tier == "thorough"); } }
 }
 
-std::string vf_case_params(uint64_t idx, const std::string& tier) { init(); if (idx >= 4 * g2.size() + 4 * g3.size()) return vf::JO().u("case", idx).str("explorer", "S").str("type", kTypes[idx - 4 * g2.size() - 4 * g3.size()]).done(); bool is2 = idx < 4 * g2.size(); uint64_t r = is2 ? idx : idx - 4 * g2.size(); const auto& g = is2 ? g2 : g3; return vf::JO().u("case", idx).str("type", kTypes[(is2 ? 0 : 4) + r / g.size()]).str("scene", g[r % g.size()].name).done(); }
+std::string vf_case_params(uint64_t idx, const std::string& tier) { init(); if (idx >= 4 * g2.size() + 4 * g3.size()) return vf::JO().u("case", idx).str("explorer", "S").str("type", kTypes[(idx - 4 * g2.size() - 4 * g3.size()) / 16]).u("first_op", (idx - 4 * g2.size() - 4 * g3.size()) % 16).done(); bool is2 = idx < 4 * g2.size(); uint64_t r = is2 ? idx : idx - 4 * g2.size(); const auto& g = is2 ? g2 : g3; return vf::JO().u("case", idx).str("type", kTypes[(is2 ? 0 : 4) + r / g.size()]).str("scene", g[r % g.size()].name).done(); }
 
 std::string vf_describe(const std::string& tier) {
   init(); vf::JO o; std::vector<std::string> a, b; for (auto& s : g2) a.push_back(s.name); for (auto& s : g3) b.push_back(s.name);
@@ -240,7 +240,7 @@ std::string vf_describe(const std::string& tier) {
   o.str("motions", "rotation angle {0,1e-4,1e-2,0.1} about z (3D: z, x, (1,-1,1)) x translation {0, (0.05,-0.02,0.03), 0.4 x extent}; exact and perturbed (0.01) sources");
   o.str("correspondences", "identity, subset in reversed order, target and normals stored permuted (source index != target index)");
   o.str("overloads", "index-based on a fresh estimator, index-based on one estimator reused for the whole scene, aligned, preconditioned by 1e-3 and 1e3 with setPreconditioner");
-  o.str("S", std::string("every sequence of ") + (tier == "thorough" ? "4" : "3") + " calls out of 16 (all / half of the points x index-based / aligned x {plain find, setPreconditioner with scale 1, 0.05, 40 then find}) on ONE estimator, 8 point types, 40-point square / 96-point box with a 0.09 rad motion and perturbed sources; every answer within twice the forward-error bound of the answer of a fresh estimator; a plain find while a non-unit preconditioner is configured ends the sequence (outside the statement)");
+  o.str("S", std::string("every sequence of ") + (tier == "thorough" ? "6" : "3") + " calls out of 16 (all / half of the points x index-based / aligned x {plain find, setPreconditioner with scale 1, 0.05, 40 then find}) on ONE estimator, 8 point types, 40-point square / 96-point box with a 0.09 rad motion and perturbed sources; every answer within twice the forward-error bound of the answer of a fresh estimator; a plain find while a non-unit preconditioner is configured ends the sequence (outside the statement)");
   o.str("oracle", "J and Y rebuilt from the definition in long double; parameters vs Householder-QR solution within 4 p eps kappa^2 (|x|+|Y|/smax); identity+skew+translation shape; normal-equation residual; all overloads agree; pure translation exact; rotation error <= 2 kappa theta^2 (extent+|t|+1) sqrt(p); kappa(J)^2 >= 1e6 or no digits in the scalar type => outside the quantifier (trivial)");
   return o.done();
 }
